@@ -203,6 +203,16 @@ def gen(rng, tier):
             for v, ln in ((0, 32), (0, 20), (1, 32), (1, 20)):
                 yield Case("addrdec", ["p2wpkh", tx(SegwitBech32Encoder.Encode(hrp, v, bytes(rng.randrange(256) for _ in range(ln)))), "hrp=" + tx(hrp)], "directed-witprog")
                 yield Case("addrdec", ["p2tr", tx(SegwitBech32Encoder.Encode(hrp, v, bytes(rng.randrange(256) for _ in range(ln)))), "hrp=" + tx(hrp)], "directed-witprog")
+        # Stellar addresses whose CRC16 has a zero high byte, built from the StrKey definition with stdlib pieces only
+        import base64, binascii
+        for j in range(20000):
+            pub = pub_forms("ed25519", rand_priv(rng, "ed25519"))[0][1:]
+            body = bytes([6 << 3]) + pub
+            crc = binascii.crc_hqx(body, 0)
+            if crc < 0x100 or crc & 0xff == 0:
+                addr = base64.b32encode(body + crc.to_bytes(2, "little")).decode()
+                yield Case("addrdec", ["xlm", tx(addr), "addr_type=48"], "directed-xlm-crc-zero-byte")
+                break
         sk, vk = (pub_forms("ed25519monero", rand_priv(rng, "ed25519monero"))[0] for _ in range(2))
         std = XmrAddrEncoder.EncodeKey(sk, pub_vkey=vk, net_ver=b"\x12")
         yield Case("addrdec", ["xmrint", tx(std), "net_ver=12", "payment_id=" + hx(bytes(8))], "directed-xmr-std-as-int")
